@@ -16,6 +16,8 @@ export SCVERIF_REPO="$MX/repo" SCVERIF_DRIVER_DIR="$MX/driver" SCVERIF_WORK_DIR=
 for d in seeded/${glob}*/; do
   id=$(basename "$d"); prop=${id%%-*}
   [ -f "$d/meta.json" ] || continue
+  # a change whose behaviour belongs to another property is tried against that property's check (meta key check_with)
+  other=$(python3 -c "import json,sys; print(json.load(open(sys.argv[1])).get('check_with',''))" "$d/meta.json"); [ -n "$other" ] && prop=$other
   if grep -q '"neutralised_by_fix"' "$d/meta.json"; then echo "$id neutralised"; continue; fi
   git -C "$MX/repo" checkout -q -- .
   if ! git -C "$MX/repo" apply "/verif/$d/patch.diff" 2>/dev/null; then echo "$id PATCH-DOES-NOT-APPLY"; echo "patch does not apply to the current tree" > "$d/trial.txt"; continue; fi
@@ -47,6 +49,7 @@ for d in sorted(os.listdir('/verif/seeded'), key=lambda x:(x.split('-m')[0], int
     if os.path.exists(np): title=open(np).read().strip().split('\n')[0].lstrip('# ').strip()
     det=m.get('detected_by_quick_check')
     if m.get('neutralised_by_fix'): det='n/a (neutralised by fix %s)'%m['neutralised_by_fix']
+    elif m.get('check_with'): det='%s, by the check of %s (not by its own)'%(det, m['check_with'])
     sig=', '.join('`%s`'%s.split(' (')[0][:70] for s in m.get('signatures_reported',[])[:2])
     rows.append('| %s | %s | %s | %s | %s |'%(d,title[:110].replace('|','/'),det,sig,'yes' if m.get('missed_by_the_check_as_it_was_when_the_change_was_made') else ''))
 open('/verif/seeded/MATRIX.md','w').write('# Seeded changes x quick checks (written by tools/matrix.sh)\n\n| id | change | reported by the quick check of its property | first signatures | missed at first (check strengthened since) |\n|---|---|---|---|---|\n'+'\n'.join(rows)+'\n')
